@@ -28,7 +28,9 @@ var c05DBs = [][]int{
 	nil,                            // index 3: the 40-entry database (more than 10 scoring candidates: limit-dependent re-rank window)
 }
 
-var c05Queries = []string{"git files", "GIT Files", " git files ", "comprss", " comprss ", "tar", "git files tar compress zip qzx", "files folder", "list files"}
+var c05Queries = []string{"git files", "GIT Files", " git files ", "comprss", " comprss ", "tar", "git files tar compress zip qzx", "files folder", "list files",
+	// query 9: the same words as query 0, one of them repeated (a repeated word counts once per occurrence)
+	"files git git"}
 
 // c05BoostWord: a word that is NOT in query 8 and whose context boost nevertheless changes query 8's NLP
 // answer on the 40-entry database (the NLP stage adds terms to the query and boosts apply to those too).
@@ -192,7 +194,7 @@ func c05Alphabet(kind string) []c05Op {
 		// two wrappers in one process (the second around another database), and a boost on a term that only
 		// the NLP stage adds to the query
 		ops = append(ops, c05Op{Kind: "search", Q: 0, O: 0}, c05Op{Kind: "search", Q: 0, O: 7}, c05Op{Kind: "search", Q: 8, O: 7}, c05Op{Kind: "search", Q: 8, O: 16},
-			c05Op{Kind: "other", Q: 0, O: 0}, c05Op{Kind: "other", Q: 8, O: 16})
+			c05Op{Kind: "other", Q: 0, O: 0}, c05Op{Kind: "other", Q: 8, O: 16}, c05Op{Kind: "search", Q: 9, O: 0})
 		mut("invalidate")
 		ops = append(ops, c05Op{Kind: "update", DB: 1})
 		return ops
@@ -478,14 +480,57 @@ func c05Run(c *lib.Ctx) {
 			}
 		}
 	}
+	c05LongLists(c, w)
 	c.Rep.Traces = c.Rep.Evaluations
+}
+
+// c05LongLists: answers longer than any CLI limit. A database of 130 entries that all match, limits around 100
+// and beyond: every request asked twice (and once more in another letter case) must equal the uncached answer.
+func c05LongLists(c *lib.Ctx, w *c05World) {
+	if c.Shard != 2%c.NShards {
+		return
+	}
+	vtime.Enable()
+	defer vtime.Disable()
+	vhost.Set("linux")
+	var cmds []Cmd
+	for i := 0; i < 130; i++ {
+		cmds = append(cmds, Cmd{Command: fmt.Sprintf("tool%03d files", i), Description: fmt.Sprintf("handle files number %d", i), Keywords: []string{"files", fmt.Sprintf("k%d", i%7)}})
+	}
+	fresh := uMustDB(c, cmds)
+	for _, entry := range []string{"cached", "monitored"} {
+		for _, lim := range []int{99, 100, 101, 129, 130, 131, 150, 1000} {
+			for _, nlp := range []bool{false, true} {
+				base := &database.Database{Commands: append([]Cmd{}, fresh.Commands...)}
+				mdb := database.NewMonitoredDatabase(base)
+				mdb.UpdateDatabase(base.Commands)
+				o := Opts{Limit: lim, UseNLP: nlp, AllPlatforms: true}
+				want := uDigest(uItems(fresh, fresh.SearchUniversal("files", o)))
+				for step, q := range []string{"files", "files", "FILES"} {
+					var rs []database.SearchResult
+					if entry == "monitored" {
+						rs = mdb.SearchWithOptionsAndMonitoring(q, o)
+					} else {
+						rs = mdb.SearchWithOptionsAndCache(q, o)
+					}
+					c.Rep.Evaluations++
+					c.Count("long_list_requests", 1)
+					if got := uDigest(uItems(mdb.Database, rs)); got != want {
+						c.Violate(lib.Violation{Key: "long-list", What: fmt.Sprintf("%s entry point, 130 matching entries, limit %d, NLP %v: request %d of the same search returns %d results, an uncached search %d", entry, lim, nlp, step+1, len(rs), strings.Count(want, ";")),
+							Case: c05Case{Entry: entry, Descr: fmt.Sprintf("long-list limit=%d nlp=%v", lim, nlp)}, Observed: truncStr(got, 300), Expected: truncStr(want, 300)})
+						break
+					}
+				}
+			}
+		}
+	}
 }
 
 func init() {
 	_ = strconv.Itoa
 	lib.Register(&lib.Check{
 		ID: "C05", Level: "model_checking",
-		Rule:      "sequence-mode exploration: every history ending in a search of length <=3 over the full alphabet (7 queries incl. case variant, padded variants, a typo and a 6-term query x 12 option settings = base + one single-field delta per SearchOptions field, + invalidate, disable, enable, sweep, advance TTL/2, advance TTL+1s, replace database A/B/C (C has A's size) = 93 operations) + every history of length <=5 (thorough 6) over 3 searches and all 9 mutators (long runs of switches, sweeps, clock advances and replacements) + every history of length <=3 (thorough 4) on a 40-entry database over 10 searches with limits {0,2,3,20,25} with and without NLP (limit-dependent re-rank window) and 5 mutators + every history of length <=4 (thorough 5) of the wrappers plan: searches on the wrapper under test and on a SECOND wrapper around another database in the same process (each must get its own database's uncached answer), a search with NLP and one with NLP plus a context boost on a word that is not in the query but among the terms the NLP stage adds (selected at run time so that the boost changes the answer), invalidate, replace + (thorough) of length <=4 over the 38+8 most colliding operations; entry points SearchWithOptionsAndCache and SearchWithOptionsAndMonitoring; cold and warm start; virtual clock. After every search the caller scrambles the slice it was given (as the CLI's in-place re-sort does), and the answer must equal, bit for bit, SearchUniversal on a freshly loaded copy of the current commands. evaluations = histories executed on the real objects (= traces validated); non-trivial = histories with a distinct sequence of answers",
+		Rule:      "sequence-mode exploration: every history ending in a search of length <=3 over the full alphabet (7 queries incl. case variant, padded variants, a typo and a 6-term query x 12 option settings = base + one single-field delta per SearchOptions field, + invalidate, disable, enable, sweep, advance TTL/2, advance TTL+1s, replace database A/B/C (C has A's size) = 93 operations) + every history of length <=5 (thorough 6) over 3 searches and all 9 mutators (long runs of switches, sweeps, clock advances and replacements) + every history of length <=3 (thorough 4) on a 40-entry database over 10 searches with limits {0,2,3,20,25} with and without NLP (limit-dependent re-rank window) and 5 mutators + every history of length <=4 (thorough 5) of the wrappers plan: searches on the wrapper under test and on a SECOND wrapper around another database in the same process (each must get its own database's uncached answer), a search with NLP and one with NLP plus a context boost on a word that is not in the query but among the terms the NLP stage adds (selected at run time so that the boost changes the answer), invalidate, replace, and a query that repeats one word of another + long lists (130 matching entries, limits 99..1000, every request asked three times) + (thorough) of length <=4 over the 38+8 most colliding operations; entry points SearchWithOptionsAndCache and SearchWithOptionsAndMonitoring; cold and warm start; virtual clock. After every search the caller scrambles the slice it was given (as the CLI's in-place re-sort does), and the answer must equal, bit for bit, SearchUniversal on a freshly loaded copy of the current commands. evaluations = histories executed on the real objects (= traces validated); non-trivial = histories with a distinct sequence of answers",
 		Assume:    []string{"host pinned, map order pinned, clock virtual (vtime)", "non-finite option values are outside the option domain"},
 		QuickSecs: 300, ThorSecs: 2400,
 		Run: c05Run,
@@ -494,6 +539,19 @@ func init() {
 			var cs c05Case
 			if json.Unmarshal(raw, &cs) != nil {
 				return nil
+			}
+			if strings.HasPrefix(cs.Descr, "long-list") {
+				cc := *c
+				cc.Rep = &lib.Report{Counters: map[string]int64{}}
+				cc.Shard = 2 % cc.NShards
+				c05LongLists(&cc, nil)
+				var out []lib.Violation
+				for _, v := range cc.Rep.Violations {
+					if cv, ok := v.Case.(c05Case); ok && cv.Descr == cs.Descr && cv.Entry == cs.Entry {
+						out = append(out, v)
+					}
+				}
+				return out
 			}
 			if v, _ := c05Run1(newC05World(c), cs); v != nil {
 				return []lib.Violation{*v}
